@@ -34,6 +34,9 @@ type Case struct {
 	// again that it listed for the nearest earlier entry of the same status ('.' or missing = a
 	// descriptor of its own): a listed entry is a listed entry, however often the registry repeats it
 	Dup string `json:"dup,omitempty"`
+	// WrapErr: the repository adds context (%w) to an error its listing callback returned, as a
+	// repository is free to do; what the callback meant travels inside
+	WrapErr bool `json:"wrapErr,omitempty"`
 }
 
 // descIdx is the index of the descriptor the repository lists at position j.
@@ -76,6 +79,9 @@ func (r *repo) ListSignatures(ctx context.Context, desc ocispec.Descriptor, fn f
 			i++
 		}
 		if err := fn(page); err != nil {
+			if r.c.WrapErr {
+				return fmt.Errorf("listing referrers of %s: %w", desc.Digest, err)
+			}
 			return err
 		}
 	}
@@ -338,6 +344,9 @@ func classes(c Case, want int) []string {
 	if len(c.Pages) >= 2 {
 		cl = append(cl, "multi-page")
 	}
+	if c.WrapErr {
+		cl = append(cl, "repository-wraps-callback-errors")
+	}
 	for j := range c.Status {
 		if descIdx(c, j) != j {
 			cl = append(cl, "listing-repeats-a-descriptor")
@@ -355,7 +364,7 @@ func classes(c Case, want int) []string {
 
 func record(rec *stats.Recorder, c Case) {
 	nt := len(c.Status) >= 2 || len(c.Pages) >= 2
-	rec.Case(classes(c, model(c)), nt, stats.Fingerprint(c.Status, fmt.Sprint(c.Pages), c.N, c.Ref, c.Skip, c.Dup), func() any { return c })
+	rec.Case(classes(c, model(c)), nt, stats.Fingerprint(c.Status, fmt.Sprint(c.Pages), c.N, c.Ref, c.Skip, c.Dup, c.WrapErr), func() any { return c })
 }
 
 // compositions returns every split of n signatures into non-empty pages, plus variants with
@@ -473,6 +482,7 @@ func TestC10_Random(t *testing.T) {
 			N:    rapid.IntRange(-2, 14).Draw(rt, "n"),
 			Ref:  rp.Pick(rt, "ref", "tag", "digest", "tagdigest", "tag", "digest", "mismatch", "mismatch-tagdigest", "mismatch-sha512", "mismatch-sha384", "noref", "malformed"),
 			Skip: rapid.IntRange(0, 9).Draw(rt, "skip") == 0}
+		c.WrapErr = rapid.IntRange(0, 3).Draw(rt, "wrapErr") == 0
 		if k >= 2 && rapid.IntRange(0, 3).Draw(rt, "duplicates") == 0 {
 			dup := make([]byte, k)
 			for i := range dup {
